@@ -91,12 +91,12 @@ func record(b *rt.Built, msgs []string) {
 			if len(meth.HTTP.Routes) > 1 {
 				multiRoute = true
 			}
-			for i, p := range oracle.FullPaths(d, s, meth) {
+			for _, fr := range oracle.AllFullRoutes(d, s, meth) {
 				ops++
-				if verbsByPath[p] == nil {
-					verbsByPath[p] = map[string]bool{}
+				if verbsByPath[fr.Pattern] == nil {
+					verbsByPath[fr.Pattern] = map[string]bool{}
 				}
-				verbsByPath[p][meth.HTTP.Routes[i].Verb] = true
+				verbsByPath[fr.Pattern][fr.Verb] = true
 			}
 		}
 		if strings.Contains(s.BasePath, "{") || strings.Contains(d.API.BasePath, "{") {
@@ -404,8 +404,8 @@ func checkDesign(b *rt.Built) []string {
 				if meth.HTTP == nil {
 					continue
 				}
-				for i, full := range oracle.FullPaths(d, s, meth) {
-					verb := meth.HTTP.Routes[i].Verb
+				for _, fr := range oracle.AllFullRoutes(d, s, meth) {
+					verb, full := fr.Verb, fr.Pattern
 					item := doc3.Paths.Find(strings.ReplaceAll(full, "{*", "{"))
 					if item == nil {
 						continue // reported above
@@ -428,8 +428,10 @@ func checkDesign(b *rt.Built) []string {
 func isFileServerWildcard(d *m.Design, path string) bool {
 	for _, s := range d.Services {
 		for _, f := range s.Files {
-			if strings.Contains(f.Path, "{*") && strings.ReplaceAll(oracle.JoinPath(d.API.BasePath, s.BasePath, f.Path), "{*", "{") == path {
-				return true
+			for _, bp := range s.BasePaths() {
+				if strings.Contains(f.Path, "{*") && strings.ReplaceAll(oracle.JoinPath(d.API.BasePath, bp, f.Path), "{*", "{") == path {
+					return true
+				}
 			}
 		}
 	}
